@@ -401,7 +401,7 @@ package lua
 //@ ensures  Inv_api(ls) && ls.reg == old(ls.reg) && ls.currentFrame == old(ls.currentFrame) && base(ls) == old(base(ls)) && ls.G == old(ls.G)
 //@ ensures  ls.stack == old(ls.stack) && (old($inv(ls.stack)) ==> $inv(ls.stack) && $sp(ls.stack) == old($sp(ls.stack))) && ls.Panic == old(ls.Panic) && (old(uvsValid(ls)) ==> uvsValid(ls))
 //@ ensures  ls.currentFrame != nil ==> unchanged(ls.currentFrame) && (old(Frame(ls)) ==> Frame(ls) && ls.currentFrame.Fn.Proto == old(ls.currentFrame.Fn.Proto) && nreg(ls) == old(nreg(ls)))
-//@ ensures  old(MetaOK(ls)) ==> MetaOK(ls)
+//@ ensures  (ls.G != nil ==> TabsOK(ls)) && (old(Inv_gfn(ls)) ==> Inv_gfn(ls)) && ls.G.Registry == old(ls.G.Registry) && (forall k int :: base(ls) <= k && k < top(ls) ==> valOK(ls.reg.array[k])) && (forall t *LTable :: t != nil ==> arrid(t.array) != arrid(ls.reg.array))
 //@ ensures  nret >= 0 ==> top(ls) == old(top(ls)) - nargs - 1 + nret
 //@ ensures  nret < 0 ==> top(ls) >= old(top(ls)) - nargs - 1
 //@ ensures  forall k int :: base(ls) <= k && k < old(top(ls)) - nargs - 1 ==> ls.reg.array[k] == old(ls.reg.array[k])
